@@ -24,6 +24,8 @@
 
 namespace sim
 {
+uint64_t spec_polyglot_key(const ref::Board& b);  // bookkey.cpp: independent logic over the engine's constant tables
+
 // ------------------------------------------------------- file fault plan --
 enum BookFault { BF_NONE = 0, BF_SHORT = 1, BF_EINTR = 2, BF_EIO = 3, BF_ENOENT = 4 };
 
@@ -230,8 +232,9 @@ void run_book_op(World* w, const std::string& name, const std::string& args)
             uint64_t key = 0;
             if (f[0] == "F")
             {
+                key = spec_polyglot_key(ref::Board(f[1]));
                 Position pos(f[1]);
-                key = PolyglotBook::hash(pos);
+                if (PolyglotBook::hash(pos) != key) w->counters["probe_engine_key_differs_from_spec"]++;
             }
             else key = strtoull(f[1].c_str(), nullptr, 16);
             unsigned mv = unsigned(atoi(f[2].c_str())), wt = unsigned(atoi(f[3].c_str()));
@@ -341,7 +344,7 @@ void run_book_op(World* w, const std::string& name, const std::string& args)
         if (bs.fault == BF_EIO || bs.fault == BF_ENOENT) return;
         Position pos(fen);
         ref::Board mb(fen);
-        uint64_t key = PolyglotBook::hash(pos);
+        uint64_t key = spec_polyglot_key(mb);
         std::map<std::string, int64_t> weight_of;  // by decoded move
         int64_t sum = 0, maxw = -1;
         for (auto& r : bs.complete)
@@ -392,30 +395,68 @@ void run_book_op(World* w, const std::string& name, const std::string& args)
                 return;
             }
         }
-        // proportions: chi-square against w/sum at p ~ 1e-9 (Wilson-Hilferty bound, conservative for few cells), and 6.5 sigma per cell
+        // proportions.  Two tests, both at a false-alarm level around 1e-10 per test:
+        //  (1) every cell: exact binomial tail of the observed count under p = w/sum (valid for any expectation,
+        //      in particular for rare moves whose expected count is below one);
+        //  (2) chi-square over the cells with expected count >= 10, the rest pooled into one cell (the chi-square
+        //      approximation is not valid for small expectations), Wilson-Hilferty bound with z = 6.3.
+        auto log_binom_pmf = [](int64_t n, double p, int64_t k) {
+            return std::lgamma(double(n) + 1) - std::lgamma(double(k) + 1) - std::lgamma(double(n - k) + 1) + double(k) * std::log(p) + double(n - k) * std::log1p(-p);
+        };
+        auto tail_ge = [&](int64_t n, double p, int64_t k) {  // P(X >= k)
+            if (k <= 0) return 1.0;
+            double s = 0;
+            for (int64_t i = k; i <= n && i < k + 4000; ++i)
+            {
+                double t = std::exp(log_binom_pmf(n, p, i));
+                s += t;
+                if (t < 1e-30 && i > int64_t(double(n) * p)) break;
+            }
+            return s;
+        };
+        auto tail_le = [&](int64_t n, double p, int64_t k) {  // P(X <= k)
+            double s = 0;
+            for (int64_t i = k; i >= 0 && i > k - 4000; --i)
+            {
+                double t = std::exp(log_binom_pmf(n, p, i));
+                s += t;
+                if (t < 1e-30 && i < int64_t(double(n) * p)) break;
+            }
+            return s;
+        };
+        const double ALPHA = 1e-10;
         double chi = 0;
-        int cells = 0;
-        bool sigma_bad = false;
+        int cells = 0, chi_cells = 0;
+        bool tail_bad = false;
+        double pooled_e = 0, pooled_o = 0;
+        std::string worst;
         for (auto& kv : weight_of)
         {
             if (kv.second == 0) continue;
             double p = double(kv.second) / double(sum);
             double e = p * double(n);
-            double o = double(obs.count(kv.first) ? obs[kv.first] : 0);
-            chi += (o - e) * (o - e) / e;
+            int64_t oi = obs.count(kv.first) ? obs[kv.first] : 0;
+            double o = double(oi);
             cells++;
-            double sd = std::sqrt(double(n) * p * (1 - p));
-            if (sd > 0 && std::fabs(o - e) > 6.5 * sd + 1) sigma_bad = true;
+            if (p < 1.0)
+            {
+                double pt = o >= e ? tail_ge(n, p, oi) : tail_le(n, p, oi);
+                if (pt < ALPHA) { tail_bad = true; worst = kv.first; }
+            }
+            if (e >= 10) { chi += (o - e) * (o - e) / e; chi_cells++; }
+            else { pooled_e += e; pooled_o += o; }
             if (kv.second > 0 && kv.second * 20 < sum) w->counters["probe_rare_move_cells"]++;
         }
-        int dof = std::max(1, cells - 1);
+        if (pooled_e >= 10) { chi += (pooled_o - pooled_e) * (pooled_o - pooled_e) / pooled_e; chi_cells++; }
+        int dof = std::max(1, chi_cells - 1);
         double z = 6.3;
         double t = 1.0 - 2.0 / (9.0 * dof) + z * std::sqrt(2.0 / (9.0 * dof));
         double crit = dof * t * t * t + 5.0;
-        if (cells >= 2 && (chi > crit || sigma_bad))
+        bool chi_bad = chi_cells >= 2 && chi > crit;
+        if (cells >= 2 && (chi_bad || tail_bad))
         {
-            char buf[96];
-            snprintf(buf, sizeof buf, "chi2=%.1f crit=%.1f dof=%d n=%ld", chi, crit, dof, (long)n);
+            char buf[160];
+            snprintf(buf, sizeof buf, "chi2=%.1f crit=%.1f dof=%d n=%ld%s%s", chi, crit, dof, (long)n, tail_bad ? " binomial-tail<1e-10 for " : "", tail_bad ? worst.c_str() : "");
             w->violation("C19", "random-policy-not-proportional-to-weight", fen + ": " + dist + buf);
         }
         if (cells >= 2) w->counters["c19_multi_move_distributions"]++;
@@ -442,8 +483,7 @@ void book_check_bestmove(World* w, GoRec& g)
     if (!w->book) return;
     BookState& bs = book_of(w);
     if (!bs.loaded || bs.fault == BF_EIO) return;
-    Position pos(g.root.fen());
-    uint64_t key = PolyglotBook::hash(pos);
+    uint64_t key = spec_polyglot_key(g.root);
     int64_t maxw = -1, sum = 0;
     bool any = false;
     for (auto& r : bs.complete)
@@ -497,7 +537,26 @@ Script gen_book_script(uint64_t run_seed, const std::string& tier, Rng& r)
                 p.game = ref::Game(ref::Board(p.start_fen));
                 ps.push_back(p);
             }
-            else ps.push_back(gen_position(r, 30, 0));
+            else
+            {
+                PosSpec p = gen_position(r, 30, 0);
+                if (r.chance(0.35))
+                {
+                    // finish with a double pawn push: the en-passant part of the key
+                    std::vector<ref::RMove> dp;
+                    for (auto& m : p.game.cur.legal())
+                        if (ref::kind_of(p.game.cur.sq[m.from]) == ref::KIND_P && std::abs(ref::rank_of(m.to) - ref::rank_of(m.from)) == 2) dp.push_back(m);
+                    if (!dp.empty())
+                    {
+                        ref::RMove m = dp[r.below(dp.size())];
+                        ref::Undo u = p.game.cur.make(m);
+                        bool term = p.game.cur.legal().empty();
+                        p.game.cur.unmake(m, u);
+                        if (!term) p.game.push(m);
+                    }
+                }
+                ps.push_back(p);
+            }
         }
         if (r.chance(0.3))
         {
